@@ -215,7 +215,7 @@ class C17(core.Check):
             b'10 A\x01\xffB', b'10 PRINT USR0(1)', b"10 REMARK", b"10 REM'x", b"10 :REM'x", b"10 ELSE", b"10 1ELSE",
             b'10 PRINT 1E5ELSE', b'10 PRINT 1EQV2', b'10 NOISE 1:TERM', b'10 a$=mid$(b$,1)', b'10 PRINT\x7f',
             b'10 A=1\x1c2', b'10 A=1D+2#', b'10 A=1!#', b'10 A=12345678901234567890', b'10 A=32767:B=32768',
-            b'10 A=00009:B=010:C=0256', b'99999 X', b'6552 9', b'10 &', b'10 &O', b'10 &h', b'10 &7 7',
+            b'10 A=00009:B=010:C=0256', b'99999 X', b'6552 9', b'10 &', b'10 &O', b'10 &h', b'10 &7 7', b'10 A=&O1 2 3:B=&O 7 7 +1', b'10 A=&O1\t7 AND 1', b'10 A=&O177777 1',
         ]
         out = [{'k': 'text', 'syn': i % 3, 'b': list(bytearray(t))} for i, t in enumerate(texts)]
         ci_texts = [b'10 X=1 else X=2', b'10 IF A THEN X=1 else X=2', b'20 PRINT 1 eqv 2', b'30 print 2 Eqv 3:?1 eLSE',
